@@ -24,6 +24,7 @@ LEVEL_TEXT = (
     "whole-number time points given as Python ints / an integer array, non-initial roots, and 136 long walks "
     "through the whole alphabet (every rotation, both directions). "
     " Also: an override back to the value recorded in the result, result views read between an update and the next simulation, and ONE time-point array object shared by every call of a history (the caller's array must be what it was)."
+    ' Also: parameters set to exactly zero (single form, plural form, protocol step).'
 )
 LEVEL_NOTE = "trusted: scipy LSODA at atol=rtol=1e-8 (compared at 5e-6), the closed form of the linear ODE, the reference refusal rule taken from the statement"
 RULE = (
